@@ -78,9 +78,20 @@ def setS (ss : Streams) (sid : Nat) (s : S) : Streams :=
 
 def remove (ss : Streams) (sid : Nat) : Streams := ss.filter fun p => p.1 ≠ sid
 
+/-- what one poll of a substream leaves of its answers -/
+def restOf (s : S) (e : Env) : Env :=
+  let r := pollNext (e.reads.length + e.procs.length + 1) s e.reads e.procs
+  { reads := r.2.2.1, procs := r.2.2.2 }
+
+/-- the answers of substream `sid` after one of its polls -/
+def leftover (env : Nat → Env) (sid : Nat) (e : Env) : Nat → Env :=
+  fun v => if v = sid then e else env v
+
 /-- `SelectAll::poll_next`: the woken substreams are polled in the order the executor presents
 them (`order`, the environment's choice); the first item is returned, the rest are not polled;
-a substream that ends is dropped. -/
+a substream that ends is dropped. A substream that wakes itself while it is polled (a processing
+future that is not ready at its first poll) is presented again in the same call: `order` may name
+it several times, and each poll consumes the answers the previous one left. -/
 def selectPoll (ss : Streams) (env : Nat → Env) : List Nat → Streams × Option (Nat × Nat)
   | [] => (ss, none)
   | sid :: order =>
@@ -89,8 +100,20 @@ def selectPoll (ss : Streams) (env : Nat → Env) : List Nat → Streams × Opti
     | some s =>
       match poll s (env sid).reads (env sid).procs with
       | (s', .item m) => (setS ss sid s', some (sid, m))
-      | (_, .ended) => selectPoll (remove ss sid) env order
-      | (s', .pending) => selectPoll (setS ss sid s') env order
+      | (_, .ended) => selectPoll (remove ss sid) (leftover env sid (restOf s (env sid))) order
+      | (s', .pending) => selectPoll (setS ss sid s') (leftover env sid (restOf s (env sid))) order
+
+/-- the answers `selectPoll` leaves unconsumed (it stops at the first item) -/
+def selectRest (ss : Streams) (env : Nat → Env) : List Nat → Nat → Env
+  | [] => env
+  | sid :: order =>
+    match ss.lookup sid with
+    | none => selectRest ss env order
+    | some s =>
+      match poll s (env sid).reads (env sid).procs with
+      | (_, .item _) => leftover env sid (restOf s (env sid))
+      | (_, .ended) => selectRest (remove ss sid) (leftover env sid (restOf s (env sid))) order
+      | (s', .pending) => selectRest (setS ss sid s') (leftover env sid (restOf s (env sid))) order
 
 /-- `FullyNegotiatedInbound`: a new substream -/
 def push (ss : Streams) (sid : Nat) : Streams := ss ++ [(sid, ({} : S))]
